@@ -18,3 +18,4 @@ def run(ck):
     glyph.r2_counters_pair(ck, P)         # C17-R2: the table-clearing sweep visits every slot (a glyph left in an unvisited slot is never released)
     image.r_embedded_region_finalised(ck, P)
     alloc.r12_region_storage_released_before_overwrite(ck, P)
+    image.r20_11_half_built_image_is_freed_raw(ck, P)
